@@ -52,203 +52,208 @@ func runC17(c *Ctx, r *Rec) {
 			}
 		}
 	}
-	if valuesF == nil || slotF == nil {
-		r.skip("bind", "agent."+it.Obj().Name(), "", fmt.Sprintf("cannot bind the snapshot and slot fields by role (values=%v slot=%v): the cursor rules are bound to the array-and-slot design", valuesF, slotF))
-		return
-	}
-	// the size: a frozen int field, or the length of the snapshot itself
-	sizeName := "len(snapshot)"
-	if sizeF != nil {
-		sizeName = objKey(sizeF)
-	}
-	slot, size := sym(objKey(slotF)), sym(sizeName)
-	inv := and(ge(slot, k(0)), le(slot, size))
-	base := Cube{}
-	for _, cb := range dnf(inv) {
-		base = append(base, cb...)
-	}
 	ms := c.methodsOf(it)
+	cursorRules := func() {
+		// the size: a frozen int field, or the length of the snapshot itself
+		sizeName := "len(snapshot)"
+		if sizeF != nil {
+			sizeName = objKey(sizeF)
+		}
+		slot, size := sym(objKey(slotF)), sym(sizeName)
+		inv := and(ge(slot, k(0)), le(slot, size))
+		base := Cube{}
+		for _, cb := range dnf(inv) {
+			base = append(base, cb...)
+		}
 
-	type mspec struct {
-		rows   []specRow
-		access func(p symPath) *Lin // required access index (nil = none) given the path
-	}
-	arg := func(fd *ast.FuncDecl) *Lin {
-		ps := paramObjs(info, fd)
-		if len(ps) == 1 {
-			return sym(ps[0].Name())
+		type mspec struct {
+			rows   []specRow
+			access func(p symPath) *Lin // required access index (nil = none) given the path
 		}
-		return sym("?")
-	}
-	specs := map[string]func(fd *ast.FuncDecl) []specRow{
-		"HasNext": func(fd *ast.FuncDecl) []specRow {
-			return []specRow{{When: FTrue, Kind: "return", RetB: []*F{lt(slot, size)}, State: map[string]*Lin{objKey(slotF): slot}, Desc: "HasNext <=> slot < size"}}
-		},
-		"HasPrevious": func(fd *ast.FuncDecl) []specRow {
-			return []specRow{{When: FTrue, Kind: "return", RetB: []*F{gt(slot, k(0))}, State: map[string]*Lin{objKey(slotF): slot}, Desc: "HasPrevious <=> slot > 0"}}
-		},
-		"GetSlot": func(fd *ast.FuncDecl) []specRow {
-			return []specRow{{When: FTrue, Kind: "return", Ret: []*Lin{slot}, State: map[string]*Lin{objKey(slotF): slot}, Desc: "GetSlot = slot"}}
-		},
-		"GetSize": func(fd *ast.FuncDecl) []specRow {
-			return []specRow{{When: FTrue, Kind: "return", Ret: []*Lin{size}, State: map[string]*Lin{objKey(slotF): slot}, Desc: "GetSize = size"}}
-		},
-		"IsEmpty": func(fd *ast.FuncDecl) []specRow {
-			return []specRow{{When: FTrue, Kind: "return", RetB: []*F{eq(size, k(0))}, State: map[string]*Lin{objKey(slotF): slot}, Desc: "IsEmpty <=> size = 0"}}
-		},
-		"ToStart": func(fd *ast.FuncDecl) []specRow {
-			return []specRow{{When: FTrue, Kind: "return", State: map[string]*Lin{objKey(slotF): k(0)}, Desc: "ToStart -> slot 0"}}
-		},
-		"ToEnd": func(fd *ast.FuncDecl) []specRow {
-			return []specRow{{When: FTrue, Kind: "return", State: map[string]*Lin{objKey(slotF): size}, Desc: "ToEnd -> slot size"}}
-		},
-		"GetNext": func(fd *ast.FuncDecl) []specRow {
-			return []specRow{
-				{When: lt(slot, size), Kind: "return", State: map[string]*Lin{objKey(slotF): slot.plus(1)}, Desc: "GetNext before the end moves one slot forward"},
-				{When: ge(slot, size), Kind: "return", State: map[string]*Lin{objKey(slotF): slot}, Desc: "GetNext at the end stays put"},
+		arg := func(fd *ast.FuncDecl) *Lin {
+			ps := paramObjs(info, fd)
+			if len(ps) == 1 {
+				return sym(ps[0].Name())
 			}
-		},
-		"GetPrevious": func(fd *ast.FuncDecl) []specRow {
-			return []specRow{
-				{When: gt(slot, k(0)), Kind: "return", State: map[string]*Lin{objKey(slotF): slot.plus(-1)}, Desc: "GetPrevious after the start moves one slot back"},
-				{When: le(slot, k(0)), Kind: "return", State: map[string]*Lin{objKey(slotF): slot}, Desc: "GetPrevious at the start stays put"},
-			}
-		},
-		"ToSlot": func(fd *ast.FuncDecl) []specRow {
-			a := arg(fd)
-			return []specRow{
-				{When: and(ge(a, k(0)), le(a, size)), Kind: "return", State: map[string]*Lin{objKey(slotF): a}, Desc: "ToSlot(k) for 0<=k<=size -> k"},
-				{When: gt(a, size), Kind: "return", State: map[string]*Lin{objKey(slotF): size}, Desc: "ToSlot(k) for k>size clamps to size"},
-				{When: and(le(a, k(-1)), ge(a, size.scale(-1))), Kind: "return", State: map[string]*Lin{objKey(slotF): a.add(size).plus(1)}, Desc: "ToSlot(k) for -size<=k<=-1 -> k+size+1"},
-				{When: lt(a, size.scale(-1)), Kind: "any", Desc: "ToSlot(k) for k<-size clamps (exact slot not documented; range checked separately)"},
-			}
-		},
-	}
-	// required element access per method: index expression relative to the pre-state slot
-	wantAccess := map[string]*Lin{"GetNext": slot, "GetPrevious": slot.plus(-1)}
+			return sym("?")
+		}
+		specs := map[string]func(fd *ast.FuncDecl) []specRow{
+			"HasNext": func(fd *ast.FuncDecl) []specRow {
+				return []specRow{{When: FTrue, Kind: "return", RetB: []*F{lt(slot, size)}, State: map[string]*Lin{objKey(slotF): slot}, Desc: "HasNext <=> slot < size"}}
+			},
+			"HasPrevious": func(fd *ast.FuncDecl) []specRow {
+				return []specRow{{When: FTrue, Kind: "return", RetB: []*F{gt(slot, k(0))}, State: map[string]*Lin{objKey(slotF): slot}, Desc: "HasPrevious <=> slot > 0"}}
+			},
+			"GetSlot": func(fd *ast.FuncDecl) []specRow {
+				return []specRow{{When: FTrue, Kind: "return", Ret: []*Lin{slot}, State: map[string]*Lin{objKey(slotF): slot}, Desc: "GetSlot = slot"}}
+			},
+			"GetSize": func(fd *ast.FuncDecl) []specRow {
+				return []specRow{{When: FTrue, Kind: "return", Ret: []*Lin{size}, State: map[string]*Lin{objKey(slotF): slot}, Desc: "GetSize = size"}}
+			},
+			"IsEmpty": func(fd *ast.FuncDecl) []specRow {
+				return []specRow{{When: FTrue, Kind: "return", RetB: []*F{eq(size, k(0))}, State: map[string]*Lin{objKey(slotF): slot}, Desc: "IsEmpty <=> size = 0"}}
+			},
+			"ToStart": func(fd *ast.FuncDecl) []specRow {
+				return []specRow{{When: FTrue, Kind: "return", State: map[string]*Lin{objKey(slotF): k(0)}, Desc: "ToStart -> slot 0"}}
+			},
+			"ToEnd": func(fd *ast.FuncDecl) []specRow {
+				return []specRow{{When: FTrue, Kind: "return", State: map[string]*Lin{objKey(slotF): size}, Desc: "ToEnd -> slot size"}}
+			},
+			"GetNext": func(fd *ast.FuncDecl) []specRow {
+				return []specRow{
+					{When: lt(slot, size), Kind: "return", State: map[string]*Lin{objKey(slotF): slot.plus(1)}, Desc: "GetNext before the end moves one slot forward"},
+					{When: ge(slot, size), Kind: "return", State: map[string]*Lin{objKey(slotF): slot}, Desc: "GetNext at the end stays put"},
+				}
+			},
+			"GetPrevious": func(fd *ast.FuncDecl) []specRow {
+				return []specRow{
+					{When: gt(slot, k(0)), Kind: "return", State: map[string]*Lin{objKey(slotF): slot.plus(-1)}, Desc: "GetPrevious after the start moves one slot back"},
+					{When: le(slot, k(0)), Kind: "return", State: map[string]*Lin{objKey(slotF): slot}, Desc: "GetPrevious at the start stays put"},
+				}
+			},
+			"ToSlot": func(fd *ast.FuncDecl) []specRow {
+				a := arg(fd)
+				return []specRow{
+					{When: and(ge(a, k(0)), le(a, size)), Kind: "return", State: map[string]*Lin{objKey(slotF): a}, Desc: "ToSlot(k) for 0<=k<=size -> k"},
+					{When: gt(a, size), Kind: "return", State: map[string]*Lin{objKey(slotF): size}, Desc: "ToSlot(k) for k>size clamps to size"},
+					{When: and(le(a, k(-1)), ge(a, size.scale(-1))), Kind: "return", State: map[string]*Lin{objKey(slotF): a.add(size).plus(1)}, Desc: "ToSlot(k) for -size<=k<=-1 -> k+size+1"},
+					{When: lt(a, size.scale(-1)), Kind: "any", Desc: "ToSlot(k) for k<-size clamps (exact slot not documented; range checked separately)"},
+				}
+			},
+		}
+		// required element access per method: index expression relative to the pre-state slot
+		wantAccess := map[string]*Lin{"GetNext": slot, "GetPrevious": slot.plus(-1)}
 
-	for _, name := range sortedKeys(specs) {
-		fd := ms[name]
-		construct := "agent." + it.Obj().Name() + "." + name
-		if fd == nil {
-			r.undecided("D1-cursor", construct, "", "method of the public iterator interface not found")
-			continue
-		}
-		env := &symEnv{info: info, base: base}
-		env.resolve = func(e ast.Expr) (Val, bool) {
-			if call, ok := e.(*ast.CallExpr); ok && isBuiltinCall(info, call, "len") && len(call.Args) == 1 && selectorField(info, call.Args[0]) == valuesF {
-				return Val{Lin: size}, true // the snapshot is frozen: its length is the size
-			}
-			return Val{}, false
-		}
-		// sibling methods called on the receiver (HasNext, HasPrevious, private helpers) are interpreted in place
-		env.recvs = map[types.Object]bool{}
-		if ro := recvObj(info, fd); ro != nil {
-			env.recvs[ro] = true
-		}
-		self := fd
-		enableInlining(c, env, fd, nil) // private functions and methods
-		generic := env.inlinable
-		env.inlinable = func(call *ast.CallExpr) *ast.FuncDecl {
-			if d := generic(call); d != nil {
-				return d
-			}
-			rx, mname, _, ok := methodCall(call)
-			if !ok {
-				return nil
-			}
-			id, isID := ast.Unparen(rx).(*ast.Ident)
-			if !isID || !env.recvs[info.Uses[id]] {
-				return nil
-			}
-			d := ms[mname]
-			if d == nil || d == self || d.Body == nil || len(loopsIn(d.Body)) > 0 {
-				return nil
-			}
-			return d
-		}
-		paths := symRun(env, fd.Body)
-		if len(env.problems) > 0 {
-			r.skip("D1-cursor", construct, c.pos(fd.Pos()), "SYM cannot interpret the body: "+strings.Join(dedup(env.problems), "; "))
-			continue
-		}
-		for i := range paths {
-			if paths[i].Kind == "fall" {
-				paths[i].Kind = "return"
-			}
-		}
-		viol, undec := conform(env, paths, specs[name](fd))
-		for _, p := range paths {
-			if p.Kind == "panic" {
-				viol = append(viol, "the method can panic on {"+p.Cube.String()+"}")
+		for _, name := range sortedKeys(specs) {
+			fd := ms[name]
+			construct := "agent." + it.Obj().Name() + "." + name
+			if fd == nil {
+				r.undecided("D1-cursor", construct, "", "method of the public iterator interface not found")
 				continue
 			}
-			// invariant preserved
-			got, ok := p.State[objKey(slotF)]
-			if !ok {
-				got = Val{Lin: slot}
+			env := &symEnv{info: info, base: base}
+			env.resolve = func(e ast.Expr) (Val, bool) {
+				if call, ok := e.(*ast.CallExpr); ok && isBuiltinCall(info, call, "len") && len(call.Args) == 1 && selectorField(info, call.Args[0]) == valuesF {
+					return Val{Lin: size}, true // the snapshot is frozen: its length is the size
+				}
+				return Val{}, false
 			}
-			if got.Lin == nil {
-				viol = append(viol, "slot becomes a non-integer form")
-			} else if h, d := holdsOn(env, p.Cube, and(ge(got.Lin, k(0)), le(got.Lin, size))); !h {
-				if !d {
-					undec = append(undec, "cannot decide the slot invariant on {"+p.Cube.String()+"}")
-				} else {
-					viol = append(viol, fmt.Sprintf("on {%s} the slot becomes %s, outside 0..size", p.Cube, got.Lin))
+			// sibling methods called on the receiver (HasNext, HasPrevious, private helpers) are interpreted in place
+			env.recvs = map[types.Object]bool{}
+			if ro := recvObj(info, fd); ro != nil {
+				env.recvs[ro] = true
+			}
+			self := fd
+			enableInlining(c, env, fd, nil) // private functions and methods
+			generic := env.inlinable
+			env.inlinable = func(call *ast.CallExpr) *ast.FuncDecl {
+				if d := generic(call); d != nil {
+					return d
+				}
+				rx, mname, _, ok := methodCall(call)
+				if !ok {
+					return nil
+				}
+				id, isID := ast.Unparen(rx).(*ast.Ident)
+				if !isID || !env.recvs[info.Uses[id]] {
+					return nil
+				}
+				d := ms[mname]
+				if d == nil || d == self || d.Body == nil || len(loopsIn(d.Body)) > 0 {
+					return nil
+				}
+				return d
+			}
+			paths := symRun(env, fd.Body)
+			if len(env.problems) > 0 {
+				r.skip("D1-cursor", construct, c.pos(fd.Pos()), "SYM cannot interpret the body: "+strings.Join(dedup(env.problems), "; "))
+				continue
+			}
+			for i := range paths {
+				if paths[i].Kind == "fall" {
+					paths[i].Kind = "return"
 				}
 			}
-			// accesses in bounds, and the documented element
-			nacc := 0
-			for _, a := range p.Accesses {
-				if a.Kind != "index" || !strings.HasSuffix(a.Base, "."+valuesF.Name()) {
+			viol, undec := conform(env, paths, specs[name](fd))
+			for _, p := range paths {
+				if p.Kind == "panic" {
+					viol = append(viol, "the method can panic on {"+p.Cube.String()+"}")
 					continue
 				}
-				nacc++
-				if a.Index == nil {
-					viol = append(viol, "element access with a non-linear index at "+c.pos(a.Pos))
-					continue
+				// invariant preserved
+				got, ok := p.State[objKey(slotF)]
+				if !ok {
+					got = Val{Lin: slot}
 				}
-				if h, d := holdsOn(env, a.Cube, and(ge(a.Index, k(0)), lt(a.Index, size))); !h {
+				if got.Lin == nil {
+					viol = append(viol, "slot becomes a non-integer form")
+				} else if h, d := holdsOn(env, p.Cube, and(ge(got.Lin, k(0)), le(got.Lin, size))); !h {
 					if !d {
-						undec = append(undec, "cannot decide bounds of access at "+c.pos(a.Pos))
+						undec = append(undec, "cannot decide the slot invariant on {"+p.Cube.String()+"}")
 					} else {
-						viol = append(viol, fmt.Sprintf("element access [%s] at %s can be outside 0..size-1 on {%s}", a.Index, c.pos(a.Pos), a.Cube))
+						viol = append(viol, fmt.Sprintf("on {%s} the slot becomes %s, outside 0..size", p.Cube, got.Lin))
+					}
+				}
+				// accesses in bounds, and the documented element
+				nacc := 0
+				for _, a := range p.Accesses {
+					if a.Kind != "index" || !strings.HasSuffix(a.Base, "."+valuesF.Name()) {
+						continue
+					}
+					nacc++
+					if a.Index == nil {
+						viol = append(viol, "element access with a non-linear index at "+c.pos(a.Pos))
+						continue
+					}
+					if h, d := holdsOn(env, a.Cube, and(ge(a.Index, k(0)), lt(a.Index, size))); !h {
+						if !d {
+							undec = append(undec, "cannot decide bounds of access at "+c.pos(a.Pos))
+						} else {
+							viol = append(viol, fmt.Sprintf("element access [%s] at %s can be outside 0..size-1 on {%s}", a.Index, c.pos(a.Pos), a.Cube))
+						}
+					}
+					if w := wantAccess[name]; w != nil {
+						if h, _ := holdsOn(env, a.Cube, eq(a.Index, w)); !h {
+							viol = append(viol, fmt.Sprintf("%s reads element [%s], the cursor specification requires [%s] (zero-based, relative to the slot before the call)", name, a.Index, w))
+						}
 					}
 				}
 				if w := wantAccess[name]; w != nil {
-					if h, _ := holdsOn(env, a.Cube, eq(a.Index, w)); !h {
-						viol = append(viol, fmt.Sprintf("%s reads element [%s], the cursor specification requires [%s] (zero-based, relative to the slot before the call)", name, a.Index, w))
+					moved := got.Lin != nil && !got.Lin.equal(slot)
+					if moved && nacc != 1 {
+						viol = append(viol, fmt.Sprintf("a path that moves the cursor reads %d elements, required exactly one", nacc))
 					}
+					if moved && (len(p.Rets) != 1 || !strings.Contains(p.Rets[0].Opaque, "."+valuesF.Name()+"[")) {
+						viol = append(viol, fmt.Sprintf("a path that moves the cursor returns %v, not the element it passed", p.Rets))
+					}
+					if !moved && (len(p.Rets) != 1 || p.Rets[0].Opaque != "zero") {
+						viol = append(viol, fmt.Sprintf("a path that stays put returns %v, required the zero value", p.Rets))
+					}
+				} else if nacc > 0 {
+					viol = append(viol, name+" reads elements")
 				}
 			}
-			if w := wantAccess[name]; w != nil {
-				moved := got.Lin != nil && !got.Lin.equal(slot)
-				if moved && nacc != 1 {
-					viol = append(viol, fmt.Sprintf("a path that moves the cursor reads %d elements, required exactly one", nacc))
-				}
-				if moved && (len(p.Rets) != 1 || !strings.Contains(p.Rets[0].Opaque, "."+valuesF.Name()+"[")) {
-					viol = append(viol, fmt.Sprintf("a path that moves the cursor returns %v, not the element it passed", p.Rets))
-				}
-				if !moved && (len(p.Rets) != 1 || p.Rets[0].Opaque != "zero") {
-					viol = append(viol, fmt.Sprintf("a path that stays put returns %v, required the zero value", p.Rets))
-				}
-			} else if nacc > 0 {
-				viol = append(viol, name+" reads elements")
+			r.count("SYM paths", len(paths))
+			switch {
+			case len(viol) > 0:
+				r.fail("D1-cursor", construct, c.pos(fd.Pos()), strings.Join(dedup(viol), " | "))
+			case onlyForeign(undec):
+				r.skip("D1-cursor", construct, c.pos(fd.Pos()), strings.Join(dedup(undec), " | "))
+			case len(undec) > 0:
+				r.undecided("D1-cursor", construct, c.pos(fd.Pos()), strings.Join(dedup(undec), " | "))
+			default:
+				r.ok("D1-cursor", construct, c.pos(fd.Pos()), fmt.Sprintf("%d paths conform to the cursor specification on all integers with 0<=slot<=size; invariant preserved; accesses in bounds", len(paths)))
 			}
 		}
-		r.count("SYM paths", len(paths))
-		switch {
-		case len(viol) > 0:
-			r.fail("D1-cursor", construct, c.pos(fd.Pos()), strings.Join(dedup(viol), " | "))
-		case onlyForeign(undec):
-			r.skip("D1-cursor", construct, c.pos(fd.Pos()), strings.Join(dedup(undec), " | "))
-		case len(undec) > 0:
-			r.undecided("D1-cursor", construct, c.pos(fd.Pos()), strings.Join(dedup(undec), " | "))
-		default:
-			r.ok("D1-cursor", construct, c.pos(fd.Pos()), fmt.Sprintf("%d paths conform to the cursor specification on all integers with 0<=slot<=size; invariant preserved; accesses in bounds", len(paths)))
-		}
+		r.floor("D1-cursor", 10)
 	}
-	r.floor("D1-cursor", 10)
+	if valuesF == nil || slotF == nil {
+		// the fields are private: the cursor rules are bound to the array-and-slot design; the
+		// snapshot rules below do not depend on it
+		r.skip("D1-cursor", "agent."+it.Obj().Name()+"/cursor", "", fmt.Sprintf("cannot bind the snapshot and slot fields by role (values=%v slot=%v): the cursor rules are bound to the array-and-slot design", valuesF, slotF))
+	} else {
+		cursorRules()
+	}
 
 	checkReceiverWrites(c, r, "D1-receiver-writes-persist", it)
 	// ---- D2 frozen fields
@@ -260,10 +265,12 @@ func runC17(c *Ctx, r *Rec) {
 		r.check(!written[f], "D2-frozen", construct, c.pos(f.Pos()), "never written after construction", "the field is written by a method: the snapshot is not immutable")
 	}
 	// the iterator never stores into its array
-	stores := elementStores(c, info, it, valuesF)
-	r.check(len(stores) == 0, "D2-frozen", "agent."+it.Obj().Name()+"/element-stores", c.pos(it.Obj().Pos()),
-		"no method stores into the snapshot array", "a method stores into the snapshot array at "+strings.Join(stores, ", "))
-	r.floor("D2-frozen", 2)
+	if valuesF != nil {
+		stores := elementStores(c, info, it, valuesF)
+		r.check(len(stores) == 0, "D2-frozen", "agent."+it.Obj().Name()+"/element-stores", c.pos(it.Obj().Pos()),
+			"no method stores into the snapshot array", "a method stores into the snapshot array at "+strings.Join(stores, ", "))
+	}
+	r.floorSoft("D2-frozen", "agent."+it.Obj().Name()+"/snapshot-field", "no slice field holds the snapshot")
 
 	checkIteratorSnapshots(c, r)
 	checkIteratorNotShared(c, r, it)
